@@ -6,14 +6,19 @@
    must be violated (the invariants can see it); spec/MC_Fees_avs (the defect L27, fixed in 9ad8de4, seeded, second
    AVS listed first): InvNoPanic must be violated; spec/MC_Fees_acc (current tree, second AVS before / after):
    every invariant holds;
-2. behaviours by `tlc -simulate` of spec/MC_Fees_g / MC_Fees_gen.cfg;
+2. behaviours by `tlc -simulate` of spec/MC_Fees_g / MC_Fees_gen.cfg (random), plus the CLASS COVER spec/MC_Fees_c /
+   MC_Fees_cov.cfg: every behaviour of a scripted model over the boundary values of the distribution parameters
+   (tax 0 / small / 100 %, commission 0 / mid / 100 %, 0 / 1 / 3 validators, fee of 1 unit / with remainders, a parameter
+   update between two distribution epochs);
 3. replay on the real code: one fresh ExocoreApp per behaviour, real blocks (harness `fees`);
 4. trace validation with spec/Trace_Fees (property lane C17_*, strict lane STRICT_*).
 """
 import collections
 import json
 import os
+import re
 import shutil
+import time
 
 import vlib
 
@@ -24,6 +29,10 @@ WORLDS = {
                  hcfg={"scales": ["1", "1000003", "700000000000000003", "1000000000000000000000007"],
                        "pscales": [1, 1000], "modelPrec": 100, "stakers": 3, "dogfood": ["day", "eb"], "extraAvs": [0]}),
 }
+
+# the class-cover behaviours are replayed at every amount scale in turn (seeded choice per behaviour)
+COVER_HCFG = {"scales": ["1", "1000003", "700000000000000003", "1000000000000000000000007"], "pscales": [1, 1000], "modelPrec": 100,
+              "stakers": 3, "dogfood": ["day"], "extraAvs": [0]}
 
 TAG_UNIVERSE = {
     "C17": ["C17_SupplyDelta", "C17_AllMoved", "C17_Booked", "C17_Solvent", "C17_Proportional", "C17_CommissionSplit",
@@ -41,8 +50,11 @@ def run(tier, seed):
         shutil.rmtree(d, ignore_errors=True)
 
 
-def _classify(ln, pre):
-    """coverage class of a trace line (for the vacuity guard)"""
+ONE = "1000000000000000000"
+
+
+def _classify(ln, pre, hdr=None, mem=None):
+    """coverage classes of a trace line (for the vacuity guard); hdr = reset line of the behaviour, mem = per-behaviour memory"""
     ev = ln["ev"]
     if ev != "BeginBlock":
         return f"{ev}:{'ok' if ln['ok'] else 'fail'}"
@@ -72,7 +84,31 @@ def _classify(ln, pre):
                 out.append("dist:zero-staker-value,rate<100%,fees>0")
         if any(len({x["avs"] for x in e["e"]}) >= 2 for e in env["ent"]):
             out.append("dist:operator-in-2-AVSs")
+        # boundary classes of the parameters of the formula (with something to distribute and positive total power)
+        live = env["ltp"] != "0" and pre["fc"] != "0"
+        taxc = "0" if env["tax"] == "0" else ("100%" if env["tax"] == ONE else "mid")
+        out.append(f"dist:tax={taxc}")
+        if live:
+            out.append(f"dist:tax={taxc},fees>0,power>0")
+            nv = len([v for v in env["vals"] if v["o"] and v["pw"] != "0"])
+            out.append("dist:live,1-validator" if nv == 1 else f"dist:live,{nv}-validators")
+            for v in env["vals"]:
+                if v["o"] and v["pw"] != "0":
+                    r = rates.get(v["o"])
+                    out.append("dist:live,commission=" + ("0" if r == "0" else "100%" if r == ONE else "mid"))
+        if hdr is not None and pre["fc"] == str(hdr.get("scale")):
+            out.append("dist:fees=1-unit")
+        if mem is not None:
+            if "tax" in mem and mem["tax"] != env["tax"]:
+                out.append("dist:tax-changed-since-last-distribution")
+                if live:
+                    out.append("dist:tax-changed-since-last-distribution,live")
+            mem["tax"] = env["tax"]
     if mint:
+        if mem is not None:
+            if "reward" in mem and mem["reward"] != env["reward"]:
+                out.append("mint:reward-changed-since-last-mint")
+            mem["reward"] = env["reward"]
         out.append("mint:reward>0" if env["reward"] != "0" else "mint:reward=0")
     return out
 
@@ -96,10 +132,12 @@ def _validate(harness, dt, behs, hcfg, seed, wname, res, counts, distinct):
             cur += 1
             starts.append(i)
         bidx.append(cur)
+    mem = {}
     for i, ln in enumerate(lines):
         if ln["ev"] == "reset":
+            mem = {}
             continue
-        cls = _classify(ln, lines[i - 1]["st"])
+        cls = _classify(ln, lines[i - 1]["st"], lines[starts[bidx[i]]], mem)
         for c in ([cls] if isinstance(cls, str) else cls):
             counts[c] += 1
         distinct.add(json.dumps([ln["ev"], ln["a"], ln["ok"], lines[starts[bidx[i]]].get("setup")], sort_keys=True))
@@ -137,7 +175,8 @@ def _run(tier, seed, harness, d):
                "real blocks: EndBlock, Commit, BeginBlock with header times chosen so that the wanted epoch identifiers end",
                "FeeIncome is realised by bank SendCoinsFromAccountToModule or by the fee of a real signed cosmos tx (DeliverTx); "
                "Burn by bank BurnCoins through the evm module account; Delegate by deposit + DelegateTo at keeper level; Jail by the dogfood "
-               "keeper's Jail (the call x/slashing makes for downtime)",
+               "keeper's Jail (the call x/slashing makes for downtime); UpdateParams by MsgUpdateParams of x/feedistribution and x/exomint "
+               "(authority = gov module account) through the app's message service router",
                "the environment of the allocation (validators, powers, last total power, rates, staker entries with their USD values) is "
                "OBSERVED through the keepers' getters before the step and handed to the model as input; the voting-power formulas are C05's",
                "the zero-power world is a one-validator genesis whose LastTotalPower is overwritten with 0 at keeper level "
@@ -171,10 +210,12 @@ def _run(tier, seed, harness, d):
     guard("MC_Fees_dev.cfg", "defect L11 (fixed in 311e836) seeded into the model: the invariants must detect it", ["InvBooked", "InvSolvent"])
     guard("MC_Fees_zs_dev.cfg", "seeded omission: no booking when a validator with power has zero total staker value (jailed): "
           "the model must reach that class and InvBooked must see it", ["InvBooked"])
+    guard("MC_Fees_tx_dev.cfg", "seeded omission: AllocateTokens returns when the validators' part is zero (tax 100 %) before the community "
+          "pool is credited: the model must reach that class and InvBooked must see it", ["InvBooked"])
     guard("MC_Fees_avs.cfg", "defect L27 (fixed in 9ad8de4) seeded into the model, second AVS listed first: negative remainder panics", ["InvNoPanic"])
     guard("MC_Fees_acc.cfg", "current tree with a second AVS before / after the chain AVS: no panic, all invariants hold", [])
     # 2..4
-    nbeh = 90 if tier == "quick" else 1200
+    nbeh = 60 if tier == "quick" else 1200
     counts = collections.Counter()
     distinct = set()
     total_beh = total_ev = 0
@@ -194,6 +235,34 @@ def _run(tier, seed, harness, d):
             if not res["samples"]:
                 res["samples"] = [{"behaviour": json.loads(behs[0]),
                                    "first_trace_lines": [{k: v for k, v in ln.items() if k != "st"} for ln in lines[1:8]]}]
+    # class cover of the parameter boundary values: every behaviour of the scripted model MC_Fees_c (TLC breadth-first; the
+    # invariants are checked on all of them), replayed on the real code
+    dc = os.path.join(d, "gen-cover")
+    os.makedirs(dc)
+    vlib.stage_specs(dc, with_override=False)
+    t0 = time.time()
+    out, _ = vlib.tlc(dc, "MC_Fees_c.tla", "MC_Fees_cov.cfg", workers=1, timeout=900)
+    st = vlib.tlc_stats(out)
+    viol = re.findall(r"Error: Invariant (\w+) is violated", out)
+    if st is None or viol or "Error:" in out:
+        raise vlib.Infra("class-cover model MC_Fees_c failed or has a counterexample " + str(viol) + ":\n" + out[-3000:])
+    res["mc"].append({"module": "MC_Fees_c.tla", "cfg": "MC_Fees_cov.cfg", "states": st["distinct"], "transitions": st["generated"],
+                      "violated": [], "complete": st["queue"] == 0, "wall_s": round(time.time() - t0, 1)})
+    cover = []
+    for line in out.split("\n"):
+        line = line.strip()
+        if line.startswith('"BEHAVIOUR '):
+            b = json.loads(line)[len("BEHAVIOUR "):]
+            if b not in cover:
+                cover.append(b)
+    cover.sort()
+    if len(cover) < 60:
+        raise vlib.Infra(f"class cover produced only {len(cover)} behaviours")
+    nb, ne, lines, nd = _validate(harness, os.path.join(d, "trace-cover"), cover, COVER_HCFG, seed, "cover", res, counts, distinct)
+    total_beh += nb
+    total_ev += ne
+    ndev.update(nd)
+    res["cover_behaviours"] = nb
     res["behaviours"] = total_beh
     res["events"] = total_ev
     res["event_counts"] = dict(counts)
@@ -201,13 +270,18 @@ def _run(tier, seed, harness, d):
     # vacuity guard: the interesting classes must have been executed on the real code
     need = ["dist:fees>0", "dist:fees=0", "dist:power>0", "dist:power=0", "mint:reward>0", "mint:reward=0", "BeginBlock:none",
             "dist:staker-listed-twice", "dist:3-validators", "Burn:ok", "FeeIncome:ok", "Jail:ok",
-            "dist:validator-with-power-but-zero-staker-value", "dist:zero-staker-value,rate<100%,fees>0"]
+            "dist:validator-with-power-but-zero-staker-value", "dist:zero-staker-value,rate<100%,fees>0", "UpdateParams:ok",
+            # boundary values of every parameter of the formula, with fees > 0 and positive total power
+            "dist:tax=0,fees>0,power>0", "dist:tax=mid,fees>0,power>0", "dist:tax=100%,fees>0,power>0",
+            "dist:live,commission=0", "dist:live,commission=mid", "dist:live,commission=100%",
+            "dist:live,1-validator", "dist:live,3-validators", "dist:fees=1-unit",
+            "dist:tax-changed-since-last-distribution,live", "mint:reward-changed-since-last-mint"]
     missing = [c for c in need if counts[c] == 0]
     if missing or counts["BeginBlock:dist"] + counts["BeginBlock:dist+mint"] == 0 or counts["BeginBlock:mint"] + counts["BeginBlock:dist+mint"] == 0:
         raise vlib.Infra(f"vacuous run: classes never executed: {missing} (event_counts={dict(counts)})")
     res["block_phase_panics"] = counts["BeginBlock:PANIC"]
     res["deviation_steps_observed"] = dict(ndev)
-    res["rule"] = ("behaviours = TLC -simulate runs of MC_Fees_g (world chosen by the Setup event), concretised with seed-chosen amount and power "
+    res["rule"] = ("behaviours = TLC -simulate runs of MC_Fees_g (world chosen by the Setup event) + all behaviours of the class-cover model MC_Fees_c, concretised with seed-chosen amount and power "
                    "scales and replayed on a fresh real app each; event_counts classify every executed step (which identifiers ended, "
                    "fees/power zero or not, staker listed twice, ...); distinct_nontrivial = distinct (world, event, concrete args, result)")
     return res
